@@ -6,6 +6,7 @@ from lunaverif.simkit import CycleHarness
 from lunaverif.gen import long_lists, weighted
 from lunaverif.bfm import utmi_rx, g1_rx as rx
 from lunaverif.ref import usb2
+from lunaverif.ref.crc import usb2_crc5, usb2_crc16
 
 PROPERTY = "C21"
 ASSUMPTIONS = [
@@ -95,11 +96,47 @@ def _build(start, ops):
     return out
 
 
+TOKENISH_PID = weighted([(usb2.PID_SOF, 8)] + [(p, 1) for p in usb2.TOKEN_PIDS])
+
+
+def _data_token_tail(dpid, pid, prefix, start):
+    """A well-formed data packet whose LAST THREE bytes (final payload byte + the two CRC16 bytes) are the image of
+    a well-formed SOF / token packet: payload = prefix + [f, PID byte]; the one free byte f is searched (from a
+    generated starting point) until the packet's CRC16, read as a token word, carries a good CRC5 (1 in 32 values
+    of f do; if none of the 256 does the packet is returned as it is -- still an ordinary good data packet)."""
+    tail = usb2.pid_byte(pid)
+    payload = list(prefix) + [start & 0xFF, tail]
+    for k in range(256):
+        cand = list(prefix) + [(start + k) & 0xFF, tail]
+        c = usb2_crc16(bytes(cand))
+        if usb2_crc5(c & 0x7FF) == c >> 11:
+            payload = cand
+            break
+    return rx.data_bytes(dpid, payload)
+
+
+def _data_token_inside(dpid, image, pre, post):
+    """A well-formed data packet whose payload contains the image of a whole well-formed SOF / token packet."""
+    return rx.data_bytes(dpid, list(pre) + list(image) + list(post))
+
+
+def _tokenish_data():
+    """Good data packets (any of the four data PIDs, payload <= 11 bytes) that look like a token from some byte on."""
+    image = st.one_of(st.builds(rx.sof_bytes, rx.FRAME), st.builds(rx.sof_bytes, rx.FRAME),
+                      st.builds(rx.token_bytes, rx.TOKEN_PID, st.sampled_from([0, 0, 5, 0x7F]), rx.ENDP))
+    few = st.lists(rx.BYTE, max_size=4)
+    return st.one_of(
+        st.builds(_data_token_tail, rx.DATA_PID, TOKENISH_PID, few, rx.BYTE),
+        st.builds(_data_token_tail, rx.DATA_PID, TOKENISH_PID, few, rx.BYTE),
+        st.builds(_data_token_inside, rx.DATA_PID, image, few, few))
+
+
 def _ops():
     delta = weighted([(0, 6), (1, 5), (2, 1), (3, 1), (100, 1), (2047, 1), (1024, 1)])
     other = st.one_of(
         st.builds(rx.token_bytes, rx.TOKEN_PID, st.sampled_from([0, 0, 5, 0x7F]), rx.ENDP),
         rx.data_good(payload=rx.payloads(max_len=10, average=3)), rx.handshake_good(), rx.garbage(5), st.just([]),
+        _tokenish_data().map(list),         # .map: one branch of `other`, not three (one_of flattens nested one_ofs)
         st.builds(lambda w: [usb2.pid_byte(usb2.PID_SOF), w & 0xFF, w >> 8], st.integers(0, 0xFFFF)))
     return st.one_of(
         st.tuples(st.just("sof"), delta), st.tuples(st.just("sof"), delta), st.tuples(st.just("sof"), delta),
@@ -142,7 +179,9 @@ class Frames(Sub):
     rule = ("real USBDevice (no endpoints) fed 2..~40 packets (per-packet timing from a cyclic pool of 1..5 timings): SOFs whose numbers repeat / increment / skip / wrap 2047->0 / "
             "jump relative to the previous SOF, runs of 2..8 repeats (first number 0, 1, 2046, 2047 or random), SOFs corrupted (CRC5 bit flip, "
             "check nibble, truncated, over-long, random 16-bit word), own/foreign tokens, data, handshakes, garbage, empty "
-            "activations; SE0 on line_state between packets (bus reset of 305..700 cycles, or 3/40 cycles = no reset; after a "
+            "activations, well-formed data packets that look like a token from some byte on (the last payload byte is a "
+            "SOF/token PID byte and the CRC16 bytes happen to be a token word with a good CRC5 -- one payload byte is "
+            "searched for that --, or the payload contains a whole SOF/token image); SE0 on line_state between packets (bus reset of 305..700 cycles, or 3/40 cycles = no reset; after a "
             "bus reset no new_frame/sof_detected until the next SOF, frame/microframe each unchanged or 0). Oracle straight from the statement on the literal bytes: after each well-formed SOF frame_number "
             "== its number, microframe_number == 0 if the number changed else previous+1, exactly one new_frame strobe iff "
             "the number changed; any other packet changes nothing and strobes nothing. non-trivial = >=1 repeat, >=1 "
@@ -227,6 +266,12 @@ class Frames(Sub):
             else:
                 want_nf = 0
                 labels.add("other:" + p["kind"])
+                if p["kind"] == "data":
+                    b = ev["bytes"]
+                    if usb2.parse(b[-3:])["kind"] in ("sof", "token"):
+                        labels.add("data-ending-in-" + usb2.parse(b[-3:])["kind"] + "-image")
+                    elif any(usb2.parse(b[k:k + 3])["kind"] in ("sof", "token") for k in range(1, len(b) - 3)):
+                        labels.add("data-containing-token-image")
                 if seen_sof:
                     between += 1
             after = (frame, micro)
